@@ -16,7 +16,8 @@ THEOREMS = ['C15_scaling_in_unit_interval', 'C15_mean_untouched', 'C15_non_incre
             'C15_factor_in_unit_interval', 'C15_half_steps_compose', 'C15_robert_asselin',
             'C15_robert_asselin_defined', 'C15_step_filter_adapters',
             'C15_scaling_in_unit_interval_R', 'C15_mean_untouched_R', 'C15_non_increasing_R',
-            'C15_semigroup_R', 'C15_exp_hypotheses_R', 'C15_hyps_satisfiable']
+            'C15_semigroup_R', 'C15_exp_hypotheses_R', 'C15_hyps_satisfiable',
+            'C15_model_is_source', 'C15_source_defaults_and_adapters']
 LEVEL = 'proof'
 LEVEL_TEXT = ('machine-checked theorems (Coq) for every ordered field (hence the reals, with exp), every number of '
               'total wavenumbers L, every wavenumber table (padded or not), all attenuations >= 0, orders, cutoffs in [0,1), '
@@ -273,7 +274,9 @@ def generate(ctx):
         yield 'hdfilter', {'grid': g, 'scale': hd_scale(g['L'], 2, g['radius'], 5.0), 'order': 2, 'K': 1}
         yield 'hdstep', {'grid': g, 'dt': 0.5, 'tau': 0.25, 'order': 1 + j % 2, 'dseed': 190 + j}
         yield 'expstep', {'grid': g, 'dt': 4.0, 'tau': 0.25, 'p': 18, 'c': 0.0, 'leapfrog': j % 2, 'dseed': 200 + j}
-        if g['M'] <= 2:
+        if g['M'] <= 2 and g['L'] <= 200:
+            # the tree model addresses leaves through unary row-major indices (`ravel`): quadratic in the index range and
+            # deeper than the native stack beyond a few hundred columns; long axes are covered by the four runners above
             yield 'tree', {'grid': g, 'kind': 'exp', 'par': [16.0, 18, 0.0], 'K': 1, 'dseed': 210 + j}
     # D: transformation contexts and filter chains
     tg = [g1, g0] if quick else [g1, g0, g2, {'M': 2, 'L': 5, 'impl': 'fast_mesh', 'radius': 2.0}, {'M': 3, 'L': 7, 'impl': 'fast8', 'radius': 6.371}]
